@@ -156,19 +156,19 @@ PROPS = {
     ),
     "C12": dict(
         level="exploration",
-        level_text="The harness owns the thread schedule: cholesky_solve.c is compiled with its pthread_create/join/mutex/cond/exit calls renamed (-D) to a shim that runs the threads one at a time and makes every call a scheduling point. walk_descents is called on generated line-search problems; for the smallest configurations (1-2 workers, 1-3 blocks) the schedule tree is enumerated exhaustively by stateless DFS (one forked child per schedule), larger configurations (up to 4 workers, more workers than trial steps) are sampled with PCT-priority and uniform random schedules. Every schedule must terminate (a state with unfinished threads and none runnable is a lost wake-up / deadlock) and return outputs (x, H1, residual, return value) bit-identical to the canonical schedule. A ThreadSanitizer build runs real monotonic fits with 1..32 workers and requires race-free, identical coefficients.",
+        level_text="The harness owns the thread schedule: cholesky_solve.c is compiled with its pthread_create/join/mutex/cond/exit calls renamed (-D) to a shim that runs the threads one at a time and makes every call a scheduling point. walk_descents is called on generated line-search problems; for the smallest configurations (1-2 workers, 1-3 blocks) the schedule tree is enumerated exhaustively by stateless DFS (one forked child per schedule), larger configurations (up to 4 workers, more workers than trial steps) are sampled with PCT-priority and uniform random schedules. Every schedule must terminate (a state with unfinished threads and none runnable is a lost wake-up / deadlock) and return outputs (x, H1, residual, return value) bit-identical to the canonical schedule. A ThreadSanitizer build with real threads runs (a) monotonic fits and (b) block3 on dense and cumulative-basis systems with 1,2,3,5,8,16,32 workers, requiring race-free runs and equal results up to rounding (the factor-update strategy depends on the worker count), and (c) walk_descents itself on generated line-search problems (2..32 trial steps) with 1..33 workers, each case in a forked child under a 20 s watchdog, requiring bit-identical outputs for every worker count. In all three, and in the shim, pinning a worker to its CPU may fail (fewer usable CPUs than workers: the executable's own sched_setaffinity stands in for the kernel's), which the line search has to survive.",
         level_note="Interleavings are explored at the granularity of the synchronisation calls; plain-memory races are visible only to the TSan runs (happens-before on the executions that occur) and not inside uninstrumented CHOLMOD. DFS is exhaustive per generated problem when the tree fits the budget (reported per case).",
         technique="schedule fuzzing with harness-owned scheduler: exhaustive stateless DFS for small configurations, PCT/random schedules for larger ones, driven by rapidcheck-generated problems; ThreadSanitizer on real threads",
         units=[U("c12_sched", "c12_sched.cpp", variant="plain", extra_srcs=["vsched.cpp"], flags=["-I{REPO}/src/fitter"], exclude_objs=["cholesky_solve.o"],
                  repo_srcs=[("src/fitter/cholesky_solve.c", ["-Dpthread_create=vs_create", "-Dpthread_join=vs_join", "-Dpthread_mutex_lock=vs_lock", "-Dpthread_mutex_unlock=vs_unlock",
                                                             "-Dpthread_cond_wait=vs_cond_wait", "-Dpthread_cond_broadcast=vs_broadcast", "-Dpthread_exit=vs_exit", "-Dsched_setaffinity=vs_setaffinity"])],
                  quick=64, thorough=160, names=["sched_dfs", "sched_pct"], leaks=False, no_isolate_rerun=True),
-               U("c12_tsan", "c12_tsan.cpp", variant="tsan", kind="tsan", quick=48, thorough=1200, names=["tsan_fits"], leaks=False, no_isolate_rerun=True, workers=dict(quick=4, thorough=8), timeout=dict(quick=420, thorough=3 * 3600))],
+               U("c12_tsan", "c12_tsan.cpp", variant="tsan", kind="tsan", flags=["-I{REPO}/src/fitter"], quick=192, thorough=4800, names=["tsan_fits", "tsan_nnls", "tsan_linesearch"], leaks=False, no_isolate_rerun=True, workers=dict(quick=4, thorough=8), timeout=dict(quick=420, thorough=3 * 3600))],
         rule="a case = one line-search problem (1..6 unknowns, 0..6 infeasible components => 2..8 trial steps, 1..4 workers) and a set of schedules: sched_dfs enumerates the tree of "
              "choice sequences (budget 2500 leaves quick / 450000 thorough; 'exhaustive_tree' when the tree was finished), sched_pct runs 300 (3000) PCT/random schedules. evaluations "
              "counts problems; class 'schedules' counts executed schedules. Non-trivial schedule: a worker finished a computation while the coordinator was between unlock and wait, "
              "or at least two context switches; distinct = hash(problem, choice sequence).",
-        essential={"tsan_fits": {"fits": 5.0}, "sched_dfs": {"schedules": 50.0, "dfs:exhaustive_within_preemption_bound": 0.12}, "sched_pct": {"schedules": 50.0, "schedule:worker_finished_in_coordinator_window": 1.0}},
+        essential={"tsan_fits": {"fits": 5.0}, "tsan_nnls": {"solves": 5.0}, "tsan_linesearch": {"line_searches": 6.0, "cpus:restricted": 0.3, "trial_steps:17+": 0.1}, "sched_dfs": {"schedules": 50.0, "dfs:exhaustive_within_preemption_bound": 0.12}, "sched_pct": {"schedules": 50.0, "schedule:worker_finished_in_coordinator_window": 1.0}},
         assumptions=["the shim's model of mutexes/condition variables follows POSIX semantics without spurious wake-ups"],
     ),
     "C09": dict(
